@@ -1814,6 +1814,14 @@ class Runner:
         return F, obs
 
     # ---------------------------------------------------------------------------------- async (C08)
+    def _async_init(self, mod):
+        """the async protocol extension is registered by the module's init(), which the runtime calls when a module is first
+        looked up: a no-op POST does that (again after a restart of the guest process)"""
+        key = (mod, self.g.deaths, self.g.proc.restarts)
+        if getattr(self, "_ainit", None) != key:
+            self.g.ask("POST %s 999999 0" % mod)
+            self._ainit = key
+
     def aexport_call(self, mod, fm, args, ret, npause=0, cancel=False):
         """async-lifted export: the host calls the `[async-lift]` entry, plays the event loop (resolving the guest's
         `npause` pause subtasks, or cancelling at the first wait) and judges what arrived through task.return."""
@@ -1838,6 +1846,7 @@ class Runner:
         trsize = o.layout(fm.result)[0] if (fm.result and fm.result_indirect) else 0
         self.stats["export_calls"] += 1
         self.live = None
+        self._async_init(mod)
         if g.ask("APOLICY %d" % (9 if cancel else 0)) is None:
             return [Finding("crash", "guest-died", "APOLICY: " + g.proc.last_err, "crash:export")], obs
         resp = g.ask("AEXPORT %s %d %d %s %s %s" % (mod, fm.idx, trsize, ",".join(map(str, flat)), ",".join(map(str, script)), segs_str(writes)))
@@ -1952,6 +1961,7 @@ class Runner:
         ind = o.layout(pt)[0] if fm.params_indirect else 0
         self.stats["import_calls"] += 1
         self.live = None
+        self._async_init(mod)
         if g.ask("APOLICY %d" % policy) is None:
             return [Finding("crash", "guest-died", "APOLICY: " + g.proc.last_err, "crash:import")], obs
         resp = g.ask("IMPORT %s %d %s %s %d %s %s %s %s" % (mod, fm.idx, fm.wasm_module.replace(" ", "\x1f"), fm.name.replace(" ", "\x1f"), ind, mode, payload,
